@@ -898,6 +898,20 @@ func genConstsFacts() map[string]any {
 			})
 		}
 	}
+	// calls of (*os.File).Fd() anywhere in the pipe ingester's package: Fd() puts the descriptor back into blocking
+	// mode and takes it off the runtime poller, after which Close no longer interrupts a pending Read
+	pipeFdCalls := 0
+	{
+		_, fnp := parseFile("ingesters/namedpipe/namedpipeingester.go")
+		ast.Inspect(fnp, func(n ast.Node) bool {
+			if c, ok := n.(*ast.CallExpr); ok && len(c.Args) == 0 {
+				if sel, ok := c.Fun.(*ast.SelectorExpr); ok && (sel.Sel.Name == "Fd" || sel.Sel.Name == "SyscallConn") {
+					pipeFdCalls++
+				}
+			}
+			return true
+		})
+	}
 	// Auditd.Read: its Go routines, whether it joins them before returning, channel capacities
 	readGo, readGoJoined, readGoCtx := 0, 0, 0
 	readDefersWait := false
@@ -1084,7 +1098,8 @@ func genConstsFacts() map[string]any {
 	}
 	emit("sends", sends)
 	emit("recvs", loops)
-	fmt.Fprintf(&fb, "def ingestOpenRacedWithCtx : Bool := %v\ndef ingestCloserOnCtx : Bool := %v\n\n", ingestOpenRaced, ingestCloser)
+	fmt.Fprintf(&fb, "def ingestOpenRacedWithCtx : Bool := %v\ndef ingestCloserOnCtx : Bool := %v\n", ingestOpenRaced, ingestCloser)
+	fmt.Fprintf(&fb, "/-- calls of `(*os.File).Fd()` / `SyscallConn()` in the pipe ingester (they take the descriptor off the poller) -/\ndef pipeFdCalls : Nat := %d\n\n", pipeFdCalls)
 	fmt.Fprintf(&fb, "/-- `Auditd.Read`: `go` statements, those whose body defers `workers.Done()`, those started on the derived (cancellable) context; whether a deferred function cancels that context and then waits for the Go routines; channel capacities -/\ndef readGoStmts : Nat := %d\ndef readGoJoined : Nat := %d\ndef readGoOnWorkersCtx : Nat := %d\ndef readDefersCancelThenWait : Bool := %v\ndef parseDoneCap : Nat := %d\ndef reassemblerErrorsCap : Nat := %d\n\n", readGo, readGoJoined, readGoCtx, readDefersWait, max64(parseDoneCap, 0), max64(reassErrCap, 0))
 	fb.WriteString("/-- the session tracker's exported methods: does the method take the tracker mutex first and release it by a deferred unlock -/\ndef trackerLocked : List (String × Bool) :=\n  [")
 	for i, l := range trackerLocks {
@@ -1126,6 +1141,7 @@ func genConstsFacts() map[string]any {
 	out["returnsNil"] = retNil
 	out["ingestOpenRacedWithCtx"] = ingestOpenRaced
 	out["ingestCloserOnCtx"] = ingestCloser
+	out["pipeFdCalls"] = pipeFdCalls
 	out["trackerLocked"] = trackerLocks
 	out["syncMapLocked"] = syncMapLocks
 	out["readGo"] = []int{readGo, readGoJoined, readGoCtx}
